@@ -190,12 +190,28 @@ def main():
             print(f"UNDECIDED unit={r['unit']}: {r['reason'][:600]}")
         exit_code = 2
 
+    # thorough tier: sensitivity self-test of the contracts (deliberately broken copies of the source must be rejected)
+    sens = []
+    if a.tier == 'thorough':
+        from engine import sens as sens_mod
+        for r in results:
+            if r['engine'] != 'verus' or r['status'] == 'undecided':
+                continue
+            base_failed = set(f.get('obligation') for f in r.get('failures', []))
+            urows = sens_mod.run(os.path.join(VERIF, 'contracts', r['unit']), REPO, base_failed)
+            for row in urows:
+                row['unit'] = r['unit']
+                sens.append(row)
+                if row['outcome'] == 'ACCEPTED':
+                    print(f"SENSITIVITY unit={r['unit']}: edit `{row['sed']}` of {row['file']} is NOT rejected - contract too weak for it")
+                    if exit_code == 0:
+                        exit_code = 2
     # known findings are reported separately: `obligations` counts the obligations claimed to hold
     for r in results:
         nk = len(set(f.get('obligation') for (r2, f, k) in known_hits if r2 is r))
         r['obligations'] -= nk
         r['known_finding_obligations'] = nk
-    write_evidence(prop, a.tier, seed, results, wall, len(seenv), known_hits)
+    write_evidence(prop, a.tier, seed, results, wall, len(seenv), known_hits, sens)
     tot_o = sum(r['obligations'] for r in results)
     tot_d = sum(r['discharged'] for r in results)
     print(f"{prop} [{a.tier}] units={len(results)} obligations={tot_o} discharged={tot_d} "
@@ -203,7 +219,7 @@ def main():
     return exit_code
 
 
-def write_evidence(prop, tier, seed, results, wall, nviol, known_hits):
+def write_evidence(prop, tier, seed, results, wall, nviol, known_hits, sens=None):
     entry = registry.PROPS[prop]
     any_bounded = any(r.get('bounded') for r in results)
     level = entry.get('level', 'proof')
@@ -260,6 +276,9 @@ def write_evidence(prop, tier, seed, results, wall, nviol, known_hits):
             'bounded_checks': {'obligations': bounded_o, 'passed_within_bound': bounded_d,
                                'note': 'Kani harnesses with a stated state-size bound: a bounded stand-in, not counted in obligations/discharged'},
             'known_findings_hit': [k.get('_line') for _, _, k in known_hits],
+            'sensitivity': {'note': 'thorough tier only: deliberate property-breaking edits of the real source (contracts/<unit>/mutants.txt) applied to a scratch copy; each must make a contract clause fail',
+                            'edits': len(sens or []), 'rejected': sum(1 for x in (sens or []) if x['outcome'] == 'rejected'),
+                            'rows': [{k: x.get(k) for k in ('unit', 'file', 'sed', 'outcome', 'detail')} for x in (sens or [])]},
             'evaluations': max(tot_o, 1),
             'distinct_nontrivial': max(len(set(n for r in results for n in r.get('named_obligations', []))), 2) if tot_o else 2,
             'rule': 'one evaluation = one proof obligation (Verus: a function/loop/closure query; Kani: a CBMC property under a contract id); distinct_nontrivial = distinct named contract clauses (#obl tags)',
